@@ -105,6 +105,11 @@ def gen_scenario(rng, frontend):
         # its name is one of the names the other Interests use
         events.append({'t': rng.choice(grid), 'kind': 'express-send-fault', 'name': rng.choice(INT_NAMES), 'cbp': rng.random() < 0.5,
                        'exc': rng.choice(['OSError', 'RuntimeError', 'AttributeError'])})
+    if rng.random() < 0.2:
+        # the wall clock is set forwards / backwards while Interests are pending (NTP step, operator correction, resume): lifetimes
+        # are durations - every outcome and every instant (on the loop's clock) is what it would have been
+        for _ in range(rng.choice([1, 1, 2])):
+            events.append({'t': rng.choice(grid), 'kind': 'wall-step', 'secs': rng.choice([3600, -3600, 10, -1, 86400 * 30, -0.05, 0.2])})
     events.sort(key=lambda e: e['t'])       # stable: express events of equal time keep their order
     # nothing after a shutdown; a Nack only for an Interest already expressed
     out = []
@@ -312,6 +317,7 @@ class Run:
         self.nested_obs = []
         self.shutdown_at = None
         self.send_faults = 0
+        self.wall_steps = 0
 
 
 def classify_exc(e):
@@ -525,6 +531,9 @@ def execute(sc):
                     R.express_errors[it['id']] = ex
                     continue
                 tasks[it['id']] = asyncio.ensure_future(waiter(it['id'], coro, it['te'] + it['aw'] if it.get('aw') else None))
+            elif k == 'wall-step':
+                S.step_wall(e['secs'])
+                R.wall_steps += 1
             elif k == 'express-send-fault':
                 face.fail_next = {'OSError': OSError(105, 'No buffer space available'), 'RuntimeError': RuntimeError('Unable to send packet before connection'),
                                   'AttributeError': AttributeError("'NoneType' object has no attribute 'write'")}[e['exc']]
@@ -723,6 +732,8 @@ def judge(ctx, sc, R, S):
         pass   # reported through outcome 'open'
     if R.send_faults:
         ctx.event('express-with-a-transport-fault-in-send')
+    if R.wall_steps:
+        ctx.event('wall-clock-stepped-while-interests-are-pending')
     for nid_, t0_, (nk, nd, nt) in R.nested_obs:
         ctx.event('interest-expressed-from-inside-a-validator')
         sd = R.shutdown_at
@@ -882,7 +893,7 @@ def run(ctx):
                 'shutdown-mixed', 'nack-for-prefix-of-pending', 'verdicts-differ', 'implicit-digest'):
         ctx.need_class('template:' + lab)
     for k in ('outcome-data', 'outcome-timeout', 'outcome-nack', 'outcome-cancel', 'outcome-valfail', 'validator-calls', 'awaited-later-than-expressed', 'other-application-unaffected', 'signed-interest-without-parameters', 'data-with-wide-integers',
-              'interest-expressed-from-inside-a-validator', 'express-with-a-transport-fault-in-send'):
+              'interest-expressed-from-inside-a-validator', 'express-with-a-transport-fault-in-send', 'wall-clock-stepped-while-interests-are-pending'):
         ctx.need_event(k)
     ctx.assumptions = ['exact ties (packet / validator completion / deadline in the same millisecond) accept either order',
                        'Data arrived in time but validator slower than the deadline: Data/ValidationFailure at validator completion or timeout at the deadline are both accepted here (C05 decides that clause)',
